@@ -229,12 +229,15 @@ fn write_tree(dir: &Path, spec: &str) {
         let mut contents = String::from("<?xml version=\"1.0\" encoding=\"UTF-8\"?>\n<plist version=\"1.0\"><dict>\n");
         if p.len() > 2 && !p[2].is_empty() {
             for gf in p[2].split('+') {
-                let (g, f) = gf.split_once('=').unwrap();
-                let (g, f) = (unhexs(g), unhexs(f));
+                let mut it = gf.split('=');
+                let (g, f) = (unhexs(it.next().unwrap()), unhexs(it.next().unwrap()));
+                // optional third part: the `name` attribute written INSIDE the glif (a copied or renamed file);
+                // the loader must take the glyph's name from the contents.plist key
+                let inner = it.next().map(unhexs).unwrap_or_else(|| g.clone());
                 contents.push_str(&format!("<key>{}</key><string>{}</string>\n", esc(&g), esc(&f)));
                 std::fs::write(
                     ldir.join(&f),
-                    format!("<?xml version=\"1.0\" encoding=\"UTF-8\"?>\n<glyph name=\"{}\" format=\"2\"></glyph>\n", esc(&g).replace('"', "&quot;")),
+                    format!("<?xml version=\"1.0\" encoding=\"UTF-8\"?>\n<glyph name=\"{}\" format=\"2\"></glyph>\n", esc(&inner).replace('"', "&quot;")),
                 )
                 .unwrap();
             }
@@ -267,9 +270,20 @@ pub fn observe(toks: &[&str], scratch: &Path) -> String {
     let mut font = if init == "new" {
         Font::new()
     } else {
-        let spec = &init["load:".len()..];
+        let (kind, spec) = init.split_once(':').unwrap();
         write_tree(&src, spec);
-        match guarded(|| Font::load(&src)) {
+        let req = |k: &str| -> norad::DataRequest<'static> {
+            match k {
+                "loadf1" => norad::DataRequest::none().filter_layers(|_, _| true),
+                "loadf2" => norad::DataRequest::none().default_layer(true).filter_layers(|n, _| n == "a"),
+                "loadf3" => norad::DataRequest::none(),
+                "loadf4" => norad::DataRequest::none().filter_layers(|n, _| n == "a" || n == "b"),
+                "loadf5" => norad::DataRequest::all().default_layer(true),
+                "loadf6" => norad::DataRequest::none().filter_layers(|_, p| p == std::path::Path::new("glyphs")),
+                _ => norad::DataRequest::all(),
+            }
+        };
+        match guarded(|| Font::load_requested_data(&src, req(kind))) {
             Ok(Ok(f)) => f,
             Ok(Err(_)) => return "init-err".to_string(),
             Err(_) => return "init-panic".to_string(),
@@ -345,6 +359,14 @@ fn gen_tree(rng: &mut Rng, names: &[String]) -> String {
             };
             if !used_f.insert(f.to_lowercase()) {
                 continue;
+            }
+            if rng.chance(1, 4) {
+                // the glif's own name attribute disagrees with its key
+                let other = if rng.chance(1, 2) { "a".to_string() } else { rng.pick(names).clone() };
+                if other.len() < 100 {
+                    gs.push(format!("{}={}={}", hexs(&g), hexs(&f), hexs(&other)));
+                    continue;
+                }
             }
             gs.push(format!("{}={}", hexs(&g), hexs(&f)));
         }
@@ -475,7 +497,17 @@ pub fn gen(tier: &str, seed: u64, out: &mut dyn Write) {
     let n = if tier == "thorough" { 60_000 } else { 2_500 };
     let maxlen = if tier == "thorough" { 120 } else { 25 };
     for i in 0..n {
-        let init = if rng.chance(1, 3) { gen_tree(&mut rng, &names) } else { "new".to_string() };
+        let init = if rng.chance(1, 3) {
+            let t = gen_tree(&mut rng, &names);
+            if rng.chance(1, 3) {
+                // partial loads: custom layer filters, default-only, none
+                t.replacen("load:", &format!("loadf{}:", 1 + rng.below(6)), 1)
+            } else {
+                t
+            }
+        } else {
+            "new".to_string()
+        };
         let len = 1 + rng.below(maxlen);
         // one history in eight exercises the `entry` API (recorded finding: it bypasses the index)
         let with_entry = i % 8 == 7;
